@@ -78,6 +78,8 @@ type bsRec struct {
 	LoadCost int64 // cost the loader returned for a loading get that stored its value
 	PrevDL   int64 // deadline of the entry just before the call (0 none / no entry)
 	Stored   bool  // a loading get whose loaded value was put into the map (new entry or in place)
+	Visited  [][2]int // range: (key,value) pairs visited
+	CachedNow int64   // the store's cached clock when the call started
 }
 
 type bsCfg struct {
@@ -100,6 +102,7 @@ type bsCfg struct {
 	Depth      int
 	CostFn     func(int) int64
 	Probe      bool // read every Set back through getFromShard at the end of its map phase
+	DlAdvs     []int64 // D<delta> actions: advance the clock to (deadline of key 1's entry) + delta, no tick
 }
 
 type bsClient struct {
@@ -205,6 +208,12 @@ func (w *bsWorld) runOp(rec *bsRec) {
 	case "wait":
 		s.Wait()
 		rec.OK = true
+	case "range":
+		s.Range(func(k, v int) bool {
+			rec.Visited = append(rec.Visited, [2]int{k, v})
+			return true
+		})
+		rec.OK = true
 	default:
 		panic("bigstep: unknown op " + rec.Op.Kind)
 	}
@@ -234,6 +243,7 @@ func (w *bsWorld) apply(a string) bool {
 		loads0 := len(w.loads)
 		var before *Entry[int, int]
 		vrt.Quiet(func() {
+			rec.CachedNow = w.h.s.timerwheel.clock.NowNanoCached()
 			before = w.residentEntry(op.K)
 			if before != nil {
 				rec.PrevDL = before.expire.Load()
@@ -337,6 +347,19 @@ func (w *bsWorld) apply(a string) bool {
 		w.step++
 		vrt.Advance(d)
 		return true
+	case 'D':
+		if w.advs >= w.cfg.MaxAdv {
+			return false
+		}
+		d, _ := strconv.ParseInt(a[1:], 10, 64)
+		target, ok := w.dlTarget(d)
+		if !ok {
+			return false
+		}
+		w.advs++
+		w.step++
+		vrt.Advance(target - vrt.NowNanos())
+		return true
 	}
 	panic("bigstep: unknown action " + a)
 }
@@ -378,6 +401,11 @@ func (w *bsWorld) enabled() []string {
 		for _, d := range w.cfg.Advs {
 			r = append(r, fmt.Sprintf("A%d", d))
 		}
+		for _, d := range w.cfg.DlAdvs {
+			if _, ok := w.dlTarget(d); ok {
+				r = append(r, fmt.Sprintf("D%d", d))
+			}
+		}
 	}
 	return r
 }
@@ -405,6 +433,25 @@ func (w *bsWorld) drain() {
 			w.err = fmt.Sprintf("drain: client%d still pending", c)
 		}
 	}
+}
+
+// dlTarget is the clock value "deadline of key 1's resident entry + delta" if that lies in the future.
+func (w *bsWorld) dlTarget(delta int64) (int64, bool) {
+	var t int64
+	ok := false
+	vrt.Quiet(func() {
+		e := w.residentEntry(1)
+		if e == nil || e.expire.Load() == 0 {
+			return
+		}
+		dl := e.expire.Load()
+		if delta > 0 && dl > (1<<62) {
+			return // the clock itself would overflow
+		}
+		t = dl + delta
+		ok = t > vrt.NowNanos()
+	})
+	return t, ok
 }
 
 // residentEntry returns the entry object the shard map holds for k (quiet mode only).
